@@ -1,3 +1,69 @@
-From PV Require Import Queue.Model.
-Theorem placeholder : True. Proof. exact I. Qed.
-Print Assumptions placeholder.
+(* C03 - Each stimulus gets its requested trials in the policy order, then silence.
+   Property theorems only; every proof is `exact <lemma of Queue/ProofsC03.v>`. *)
+From PV Require Import Queue.Model Queue.Spec Queue.ProofsC03.
+
+(* When a queue (any class, any number of stimuli, any trial counts >= 1, any group size >= 1, any
+   request chunking) has reported empty, the sequence of presented stimuli is the policy's order and
+   the counts are exact / at-least-and-stop-at-the-first-moment; nothing remains, requested totals unchanged. *)
+Theorem C03_policy_order : forall p es ch pm ns q out ev,
+  wf_queue p es = true -> forallb progress_entry es = true -> forallb (fun n => 0 <=? n) ns = true ->
+  pops all_rep (qinit p es ch pm) ns = Some (q, out, ev) -> q_empty q = true ->
+  let keys := keys_of ev in
+  let req := requested_of es in
+  count_trials q = 0 /\ count_requested q = sumZ req /\
+  match p with
+  | PFifo => keys = fifo_order es
+  | PInter keep => keys = inter_order keep es /\
+                   (if keep then stops_at_first_moment req keys = true else counts_of (zlen es) keys = req)
+  | PRandom => counts_of (zlen es) keys = req
+  | PBlockedRandom => stops_at_first_moment req keys = true /\ is_prefix keys (blocks_order pm) = true
+  | PGrouped gs => stops_at_first_moment req keys = true /\ groups_in_order gs keys = true
+  end.
+Proof. exact policy_order. Qed.
+Print Assumptions C03_policy_order.
+
+(* the reference orders are what they should be: FIFO exhausts stimuli in insertion order with exact
+   counts; the round robin visits stimuli cyclically *)
+Theorem C03_fifo_order_counts : forall es, forallb wf_entry es = true ->
+  counts_of (zlen es) (fifo_order es) = requested_of es /\ nondecreasing (fifo_order es) = true.
+Proof. exact fifo_order_counts. Qed.
+Print Assumptions C03_fifo_order_counts.
+
+(* the queue does reach empty: there is a total after which every request sequence has set the flag *)
+Theorem C03_reaches_empty : forall p es ch pm,
+  wf_queue p es = true -> forallb progress_entry es = true ->
+  match p with PRandom | PBlockedRandom => True | _ =>
+    exists N, forall ns q out ev, forallb (fun n => 0 <=? n) ns = true -> N <= sumZ ns ->
+      pops all_rep (qinit p es ch pm) ns = Some (q, out, ev) -> q_empty q = true
+  end.
+Proof. exact reaches_empty. Qed.
+Print Assumptions C03_reaches_empty.
+
+(* afterwards: only zeros, one empty notification per request, still empty, nothing remaining, totals unchanged *)
+Theorem C03_after_empty : forall p es ch pm ns q out ev n,
+  wf_queue p es = true -> forallb (fun n => 0 <=? n) ns = true -> 1 <= n ->
+  pops all_rep (qinit p es ch pm) ns = Some (q, out, ev) -> q_empty q = true ->
+  exists q', pop_buffer all_rep q n = Some (q', repeat OZero (Z.to_nat n), [EEmpty]) /\
+    q_empty q' = true /\ count_trials q' = 0 /\ count_requested q' = count_requested q.
+Proof. exact after_empty. Qed.
+Print Assumptions C03_after_empty.
+
+(* each block of the blocked-random order is a permutation whenever the oracle's shuffles are *)
+Theorem C03_blocks_are_permutations : forall n pm,
+  forallb (is_perm_block n) pm = true ->
+  forall k, 0 <= k < n -> countZ k (blocks_order pm) = zlen pm.
+Proof. exact blocks_are_permutations. Qed.
+Print Assumptions C03_blocks_are_permutations.
+
+(* the grouped queue before the repair recorded in known_findings.txt raised on a short last group *)
+Theorem C03_grouped_unrepaired_refuted : exists es gs n,
+  wf_queue (PGrouped gs) es = true /\ forallb progress_entry es = true /\ 0 <= n /\
+  pop_buffer no_rep (qinit (PGrouped gs) es [] []) n = None.
+Proof. exact grouped_unrepaired_refuted. Qed.
+Print Assumptions C03_grouped_unrepaired_refuted.
+
+Example C03_ex :
+  let es := [mk_entry 2 1 KArray [1] true; mk_entry 1 2 KGen [0] true; mk_entry 3 1 KArray [0] true] in
+  wf_queue (PGrouped 2) es = true /\ order_test (PGrouped 2) es [] [] [3; 40] = true /\
+  order_test (PInter true) es [] [] [50] = true.
+Proof. vm_compute. repeat split; reflexivity. Qed.
